@@ -125,9 +125,9 @@ def lifecycle(ctx, thorough):
         gs = gen_sflow.Gen(ctx.rng)
         sf = None
         import sflowlib
-        cands = [gs.datagram(v6=False, sub=0, seq=0, only=1)[0] for _ in range(12)]
+        cands = [gs.datagram(v6=False, sub=0, seq=0, only=1)[0] for _ in range(24)]
         rr = sflowlib.run(ctx, sflowlib.driver(ctx), [{"msgs": [{"buf": b, "filter": []}]} for b in cands], "lcprobe")
-        sf = next((b for b, x in zip(cands, rr) if not x.get("skipped") and "killed" not in x and x["res"][0]["st"] == "ok" and x["res"][0]["flows"]), None)
+        sf = next((b for b, x in zip(cands, rr) if not x.get("skipped") and "killed" not in x and x["res"][0]["st"] == "ok" and x["res"][0]["flows"] and len(b) <= 1400), None)      # (fits the 1500-octet receive buffer whole)
         if sf is None:
             return {"error": "no decodable sFlow datagram among the candidates"}
         good = {"ipfix": [c04.tpl_msg("ipfix", 256, 1), c04.data_msg("ipfix", 256), c04.data_msg("ipfix", 256)],
